@@ -671,3 +671,116 @@ def check_c13(tier, seed, log=print):
                              model_vs_impl_disagreements=dis, impl_vs_oracle_failures=len(fails)))
     run.assumptions += ['callback bodies are executed, not modelled: the zoo implements the same pure decision function on both sides']
     return run.finish()
+
+
+# ---------------------------------------------------------------------------------------------
+# C12: str mode vs byte mode
+# ---------------------------------------------------------------------------------------------
+import copy, random as _random
+import defs as D
+import zoo as Z
+
+
+def err_bytes(items):
+    s = []
+    for (k, nm, a, b) in items:
+        if k == 'err':
+            s.extend(range(a, b))
+    return s
+
+
+def check_c12(tier, seed, log=print):
+    run = Run('C12', tier, seed)
+    au = audit('C12', load_theorems('C12'))
+    for pb in au['problems']:
+        run.violation('proof', dict(theorem_audit=pb), no_input=True)
+    P.build_harness()
+    P.build_lean()
+    R = _random.Random(seed)
+    base = [d for d in D.corpus(seed, 30 if tier == 'quick' else 200, dict(cb_p=0.15)) if d.utf8]
+    base = base[: (18 if tier == 'quick' else 120)]
+    twins = []
+    for d in base:
+        t = copy.deepcopy(d)
+        t.utf8 = False
+        t.origin = d.origin + ':bytes'
+        twins.append(t)
+    alld = base + twins
+    srcs = [d.source('T%d' % i) for i, d in enumerate(alld)]
+    caps = P.run_capture(srcs)
+    nb = len(base)
+    pairs = [(i, i + nb) for i in range(nb) if caps[i].verdict == 'ACCEPT' and not caps[i].nodump]
+    for (i, j) in pairs:
+        if caps[j].verdict != 'ACCEPT':
+            run.violation('mode-verdict', dict(definition=srcs[i], twin=srcs[j], twin_errors=caps[j].errs,
+                                               what='a definition accepted in str mode is rejected with utf8 = false'), key='verdict|' + srcs[i])
+    pairs = [(i, j) for (i, j) in pairs if caps[j].verdict == 'ACCEPT']
+    same_graph = sum(1 for (i, j) in pairs if [l for l in caps[i].dump if l.startswith(('STATE', 'EDGE'))] == [l for l in caps[j].dump if l.startswith(('STATE', 'EDGE'))])
+    # root must not have an edge on a continuation byte
+    for (i, j) in pairs:
+        for c in (caps[i], caps[j]):
+            for (t, ranges) in c.states[c.root]['edges']:
+                if any(lo <= 0xbf and hi >= 0x80 for lo, hi in ranges):
+                    run.violation('root-continuation', dict(definition=srcs[i], what='root has an edge on a continuation byte: modes_agree does not apply'), no_input=True,
+                                  key='rootcont|' + srcs[i])
+    acc = sorted({i for p_ in pairs for i in p_})
+    inputs = {}
+    for (i, j) in pairs:
+        gi, st = P.graph_inputs(caps[i], True)
+        ri = [b for b in P.random_inputs(R, alld[i], 80) if P.is_valid_utf8(list(b))]
+        inputs[i] = inputs[j] = sorted(set(gi) | set(ri))
+    root = Z.write_zoo('zoo-modes-%s' % tier, alld, acc, nshards=8)
+    builds = Z.build_all(root, ['tail'] if tier == 'quick' else ['tail', 'sm_safe'])
+    evals = 0
+    nontriv = set()
+    samples = []
+    tie_dis = 0
+    lines = []
+    for i in acc:
+        lines += P.case_block(str(i), caps[i], alld[i])
+        for b in inputs[i]:
+            lines.append('Q LEX n ' + P.hexs(b))
+    lean = P.run_lean(lines, nproc=12)
+    for cfgname, b in builds.items():
+        if not b['ok']:
+            run.violation('zoo-build', dict(config=cfgname, stderr=b['stderr'][-2000:]), no_input=True)
+            continue
+        reqs = ['%d n %s' % (i, P.hexs(x)) for i in acc for x in inputs[i]]
+        outs = Z.run_zoo(b['bin'], reqs, nproc=6)
+        st = {}
+        for ln in outs:
+            idx, mode, hx, v = split_line(ln)
+            st[(idx, hx)] = v
+            mv = lean.get('%d LEX n %s' % (idx, hx))
+            if mv != v:
+                tie_dis += 1
+        for (i, j) in pairs:
+            for x in inputs[i]:
+                hx = P.hexs(x)
+                a, bb = st.get((i, hx)), st.get((j, hx))
+                if a is None or bb is None:
+                    continue
+                evals += 1
+                ia, ib = parse_stream(a), parse_stream(bb)
+                oka = [t for t in ia[0] if t[0] == 'ok']
+                okb = [t for t in ib[0] if t[0] == 'ok']
+                multi = any(c >= 128 for c in x)
+                if multi and any(t[0] == 'err' for t in ia[0]):
+                    nontriv.add((i, hx))
+                if oka != okb or err_bytes(ia[0]) != err_bytes(ib[0]) or ia[2] or ib[2]:
+                    run.violation('modes-differ', dict(definition=srcs[i], twin=srcs[j], config=cfgname, input_hex=hx, input_text=x.decode('utf-8', 'replace'),
+                                                       str_mode=a, byte_mode=bb, what='Ok tokens or the set of error bytes differ between str and byte mode'),
+                                  key='modes|%s|%s' % (srcs[i], hx))
+                elif len(samples) < 4 and multi and a != bb:
+                    samples.append(dict(definition=srcs[i], input_hex=hx, str_mode=a, byte_mode=bb))
+    if tie_dis:
+        run.violation('tie', dict(what='%d streams differ between compiled lexers and the interpreter model' % tie_dis), no_input=True)
+    run.coverage.update(dict(obligations=au['obligations'], discharged=au['discharged'], theorems=au['names'], axioms=au['axioms'],
+                             checker_cmd=au['checker_cmd'], trusted_base=TRUSTED_BASE,
+                             evaluations=evals, distinct_nontrivial=len(nontriv), definition_pairs=len(pairs), identical_graphs=same_graph,
+                             rule='every str-mode corpus definition is compiled a second time with utf8 = false; both lexers run on the same valid UTF-8 inputs (transition-directed + samples); Ok items with spans and the list of bytes covered by errors must coincide; '
+                                  'captured graphs compared; root checked for continuation-byte edges; non-trivial = multi-byte input with an error item',
+                             samples=samples, model_vs_impl_disagreements=tie_dis))
+    run.assumptions += ['byte-mode definitions on arbitrary (invalid) bytes are covered by C01/C02 (corpus has utf8 = false definitions with non-UTF-8 inputs)',
+                        'acceptance of non-UTF-8 patterns only with utf8 = false: C04 (utf8ClosedB per leaf) and C19 (nonutf8 family)']
+    return run.finish()
